@@ -263,6 +263,8 @@ def add_consumer_side(b, rng, fe, n_int, focus='c03', lp_prob=0.1, transparent=F
             kw['digest_of'] = rec['digest_of']
         if rec.get('app_param') is not None:
             kw['app_param'] = rec['app_param']
+        if rng.random() < 0.12 and rec['life'] >= 20:
+            kw['await_delay_us'] = rng.choice([1, 1000, rec['life'] * 250, rec['life'] * 500])
         b.op(rec['te'], 'express', id=rec['id'], name=rec['name'], cbp=rec['cbp'], lifetime=rec['life'],
              validator=rec['vs'], **kw)
     # fix nack packets of digest-carrying Interests
@@ -412,6 +414,25 @@ def gen_c04(rng, seed, tier='quick'):
     if cfg['frontend'] == 'v1' and rng.random() < 0.3:
         cfg['dispatcher'] = True
     appv, long_tail = add_producer_side(b, rng, cfg['frontend'], focus='c04', tokens=rng.random() < 0.3)
+    if cfg['frontend'] == 'v1' and not cfg.get('dispatcher') and cfg['face'] == 'direct' and rng.random() < 0.4:
+        cfg['nfd'] = True
+        for o in b.ops:
+            if o['op'] == 'detach' and rng.random() < 0.6:
+                # (unregister() removes the filter one loop iteration after the call: keep other table operations on
+                # the same prefix a few ms away so that the order stays unambiguous)
+                if not any(x is not o and x['op'] in ('attach', 'detach') and x['prefix'] == o['prefix'] and abs(x['at'] - o['at']) < 3000
+                           for x in b.ops):
+                    o['via'] = 'unregister'
+                    # an Interest whose very name was already seen before the detach comes again afterwards
+                    seen = [x for x in b.ops if x['op'] == 'rx' and x['at'] < o['at'] and not isinstance(x['pkt'], dict)
+                            and b.packets[str(x['pkt'])].get('k') == 'interest'
+                            and b.packets[str(x['pkt'])]['name'][:len(o['prefix'])] == o['prefix']]
+                    if seen:
+                        src = b.packets[str(rng.choice(seen)['pkt'])]
+                        spec = dict(src)
+                        spec['nonce'] = b.next_nonce
+                        b.next_nonce += 1
+                        b.rx(o['at'] + rng.choice([3000, 5000, 20000]), b.pkt(spec))
     if cfg.get('dispatcher'):
         appv = None
         for o in b.ops:
